@@ -265,7 +265,7 @@ func TestPropRingPackingCopy(t *testing.T) { propPack.Check(t) }
 
 // BootCase is one generated bootstrapping case.
 type BootCase struct {
-	Variant   string `json:"variant"` // same | degree (residual ring of half the degree) | type (conjugate-invariant residual ring)
+	Variant   string `json:"variant"` // same | degree (residual ring of half the degree) | tiny (N1=2^7, N2=2^9) | type (conjugate-invariant residual ring)
 	Eph       bool   `json:"ephemeral"`
 	Many      int    `json:"many"` // 1: Bootstrap, >1: BootstrapMany of that many ciphertexts
 	Seed      uint64 `json:"seed"`
@@ -277,9 +277,9 @@ func (c BootCase) RandSeed() uint64 { return c.Seed }
 
 func genBootCase(t *rapid.T) BootCase {
 	return BootCase{
-		Variant:   pick(t, "variant", "same", "degree", "degree", "type"),
+		Variant:   pick(t, "variant", "same", "degree", "tiny", "tiny", "type"),
 		Eph:       rapid.Bool().Draw(t, "eph"),
-		Many:      pick(t, "many", 1, 1, 2, 3),
+		Many:      pick(t, "many", 1, 2, 3, 5),
 		Seed:      rapid.Uint64().Draw(t, "seed"),
 		Parallel:  rapid.IntRange(0, 2).Draw(t, "parallel") != 0,
 		UseBefore: rapid.Bool().Draw(t, "useBefore"),
@@ -314,6 +314,12 @@ func getBootEnv(variant string, eph bool) *bootEnv {
 	bl := bootstrapping.ParametersLiteral{}
 	logN2 := 10
 	switch variant {
+	case "tiny":
+		// residual ring much smaller than the bootstrapping ring: BootstrapMany packs sparse ciphertexts into
+		// ciphertexts of degree N1 and those into one of degree N2 (tables xPow2N1/xPow2InvN1 and xPow2N2/xPow2InvN2)
+		logN2 = 9
+		lit.LogNthRoot = logN2 + 1
+		lit.LogN = 7
 	case "degree":
 		lit.LogNthRoot = lit.LogN + 1
 		lit.LogN--
@@ -346,11 +352,15 @@ func getBootEnv(variant string, eph bool) *bootEnv {
 
 func runBoot(c BootCase, rec *h.Rec) error {
 	if !h.Thorough() && os.Getenv("C10_BOOT_QUICK") == "" && os.Getenv("VERIF_REPLAY_FILE") == "" {
-		// The property lives in the thorough tier: generating bootstrapping keys under -race costs 1-3 minutes per
-		// process, which does not fit the quick-tier envelope. (C10_BOOT_QUICK=1 runs it in the quick tier; an explicit
-		// --replay of a bootstrapping case is always executed.)
-		rec.Class("skipped-in-quick-tier")
-		return nil
+		// Quick tier: only the tiny ring-switching configuration (N1=2^7 < N2=2^9), BootstrapMany of 2..5 sparse
+		// ciphertexts, no parallel part: key generation for the larger rings under -race costs minutes per process.
+		// The other variants live in the thorough tier (C10_BOOT_QUICK=1 runs them in the quick tier as well; an
+		// explicit --replay is always executed as written).
+		c.Variant, c.Eph, c.Parallel, c.UseBefore = "tiny", false, false, false
+		if c.Many < 2 {
+			c.Many = 2 + int(c.Seed%2)
+		}
+		rec.Class("quick-tier-tiny")
 	}
 	e := getBootEnv(c.Variant, c.Eph)
 	h.SeedRand(c.Seed)
@@ -365,6 +375,7 @@ func runBoot(c BootCase, rec *h.Rec) error {
 	rng := h.NewSplitMix(c.Seed)
 	ecd := ckks.NewEncoder(e.params)
 	enc := rlwe.NewEncryptor(e.params, e.sk)
+	var expected [][]complex128
 	mkCt := func(slotsShift int) *rlwe.Ciphertext {
 		pt := ckks.NewPlaintext(e.params, 0)
 		logSlots := e.params.LogMaxSlots() - slotsShift
@@ -376,6 +387,7 @@ func runBoot(c BootCase, rec *h.Rec) error {
 		for i := range v {
 			v[i] = complex(rng.Float64()*2-1, rng.Float64()*2-1)
 		}
+		expected = append(expected, v)
 		if err := ecd.Encode(v, pt); err != nil {
 			panic(err)
 		}
@@ -393,25 +405,54 @@ func runBoot(c BootCase, rec *h.Rec) error {
 	for i := 0; i < c.Many; i++ {
 		ins = append(ins, mkCt(shift))
 	}
-	run := func(ev *bootstrapping.Evaluator) string {
-		return safe(func() string {
-			if c.Many == 1 {
-				return dgCt(ev.Bootstrap(ins[0].CopyNew()))
+	// runOut bootstraps the inputs and returns one digest per output ciphertext plus the ciphertexts themselves.
+	runOut := func(ev *bootstrapping.Evaluator) (dgs []string, outs []*rlwe.Ciphertext) {
+		defer func() {
+			if r := recover(); r != nil {
+				dgs, outs = []string{"panic"}, nil
 			}
-			cts := make([]rlwe.Ciphertext, len(ins))
-			for i := range ins {
-				cts[i] = *ins[i].CopyNew()
-			}
-			out, err := ev.BootstrapMany(cts)
+		}()
+		if c.Many == 1 {
+			out, err := ev.Bootstrap(ins[0].CopyNew())
 			if err != nil {
-				return "err"
+				return []string{"err"}, nil
 			}
-			var sb strings.Builder
-			for i := range out {
-				sb.WriteString(dgCt(&out[i], nil))
+			return []string{dgCt(out, nil)}, []*rlwe.Ciphertext{out}
+		}
+		cts := make([]rlwe.Ciphertext, len(ins))
+		for i := range ins {
+			cts[i] = *ins[i].CopyNew()
+		}
+		out, err := ev.BootstrapMany(cts)
+		if err != nil {
+			return []string{"err"}, nil
+		}
+		for i := range out {
+			dgs = append(dgs, dgCt(&out[i], nil))
+			outs = append(outs, &out[i])
+		}
+		return
+	}
+	run := func(ev *bootstrapping.Evaluator) string {
+		d, _ := runOut(ev)
+		return strings.Join(d, "|")
+	}
+	// worst slot error of output i with respect to the encrypted message (the bootstrapping is approximate: a case
+	// counts as exercising the configuration only when the ORIGINAL returns the messages)
+	dec := rlwe.NewDecryptor(e.params, e.sk)
+	maxErr := func(ct *rlwe.Ciphertext, want []complex128) float64 {
+		have := make([]complex128, len(want))
+		if err := ckks.NewEncoder(e.params).Decode(dec.DecryptNew(ct), have); err != nil {
+			return 1e300
+		}
+		m := 0.0
+		for i := range want {
+			d := have[i] - want[i]
+			if a := real(d)*real(d) + imag(d)*imag(d); a > m {
+				m = a
 			}
-			return sb.String()
-		})
+		}
+		return m
 	}
 	if c.UseBefore {
 		run(orig)
@@ -420,12 +461,30 @@ func runBoot(c BootCase, rec *h.Rec) error {
 	for _, d := range compareConfig(takeSnapshotShared(orig), takeSnapshotShared(cp), true, !c.UseBefore, nil) {
 		return h.Failf(fmt.Sprintf("C10:%s:config:%s:%s", name, d.kind, stripIdx(d.path)), "%s (%s): %s at field path %q (copy vs original)", name, c.Variant, d.kind, d.path)
 	}
-	want := run(orig)
+	wantD, wantOut := runOut(orig)
+	want := strings.Join(wantD, "|")
+	accurate := len(wantOut) == len(ins)
+	for i := range wantOut {
+		if maxErr(wantOut[i], expected[i]) > 1.0/(1<<16) { // squared error: |error| <= 2^-8
+			accurate = false
+		}
+	}
 	before := takeSnapshotShared(orig)
-	got := run(cp)
+	gotD, gotOut := runOut(cp)
+	cp2 := cp.ShallowCopy() // a copy of a copy, taken after the copy was used
+	got2D, _ := runOut(cp2)
 	after := takeSnapshotShared(orig)
-	if want != got {
-		return h.Failf(fmt.Sprintf("C10:%s:behaviour:%s", name, c.Variant), "%s (%s, %d ciphertexts): copy gives %s, original %s", name, c.Variant, c.Many, got, want)
+	for who, d := range map[string][]string{"copy": gotD, "copy of the copy": got2D} {
+		if i := firstDiff(wantD, d); i >= 0 {
+			detail := ""
+			if who == "copy" && accurate && i < len(gotOut) {
+				detail = fmt.Sprintf(" (squared slot error of the copy's output w.r.t. the message: %.3g, of the original's: %.3g)", maxErr(gotOut[i], expected[i]), maxErr(wantOut[i], expected[i]))
+			}
+			return h.Failf(fmt.Sprintf("C10:%s:behaviour:%s", name, c.Variant), "%s (%s, %d ciphertexts): output #%d of the %s differs from the original evaluator's output%s", name, c.Variant, c.Many, i, who, detail)
+		}
+	}
+	for _, d := range compareConfig(takeSnapshotShared(orig), takeSnapshotShared(cp2), true, false, nil) {
+		return h.Failf(fmt.Sprintf("C10:%s:config:%s:%s", name, d.kind, stripIdx(d.path)), "%s (%s): copy of a copy: %s at field path %q", name, c.Variant, d.kind, d.path)
 	}
 	for _, d := range compareState(before, after, clsCache) {
 		return h.Failf(fmt.Sprintf("C10:%s:original-changed:%s", name, stripIdx(d.path)), "%s: using the copy changed the original at %q", name, d.path)
@@ -449,7 +508,8 @@ func runBoot(c BootCase, rec *h.Rec) error {
 		st = want
 	}
 	rec.Classf("variant=%s/eph=%v/many=%d:%s", c.Variant, c.Eph, c.Many, st)
-	if st == "ok" {
+	rec.Classf("original-accurate=%v", accurate)
+	if st == "ok" && accurate {
 		rec.NonTrivial(fmt.Sprintf("boot|%s|eph=%v|many=%d|used=%v|par=%v", c.Variant, c.Eph, c.Many, c.UseBefore, c.Parallel))
 	}
 	return nil
